@@ -128,7 +128,7 @@ def run(pid, tier, tmp, replay):
         'mc_distinct_states': mc_res['distinct'],
         'mc_exhaustive_within_constants': bool(mc_res.get('completed')),
         'witnesses_reached': sorted(wit_res['seen']),
-        'trace_executions': val['executions'], 'trace_events': val['lines'],
+        'trace_executions': val['executions'], 'trace_events': val['lines'], 'trace_executions_skipped_search_limit': val.get('skipped_search_limit', 0),
         'trace_rejections': len(val['rejections']),
         'driver_profile': cfg['profile'], 'build_variant': cfg['variant'],
         'kill_plugin_executions': kval['executions'] if kval else 0, 'kill_plugin_events': kval['lines'] if kval else 0,
